@@ -305,6 +305,56 @@ def run_truth_table(ctx, cls, kind):
     return out, len(res)
 
 
+def check_dict_to_mismatch(ctx):
+    """_dict_to_mismatch(data, to_mismatch, result_mismatch): every entry whose (converted) value is a mismatch is reported --
+    whatever the raw value was -- and entries that carry None are not; nothing to report gives None.  Decided on abstract
+    runs with exact dicts and the conversion / result constructor as symbolic callables."""
+    from .. import effects
+    from ..absint import NONE as A_NONE, State
+    from .deferredmodel import DeferredDomain
+    from .common import module_function
+    f = module_function(ctx, "testtools.matchers._dict", "_dict_to_mismatch")
+    params = [a.arg for a in f.args.args]
+    M1, M2 = ("new", "Mismatch", (("const", 1),), ()), ("new", "Mismatch", (("const", 2),), ())   # mismatch objects are truthy (R-NO-FALSY-MISMATCH)
+    cases = [
+        ("verdicts, no conversion", ("kwdict", (("a", M1), ("b", A_NONE), ("c", M2))), None, {"a": M1, "c": M2}),
+        ("verdicts, all None", ("kwdict", (("a", A_NONE),)), None, None),
+        ("raw values converted to mismatches, one raw value falsy", ("kwdict", (("x", ("const", 0)), ("y", ("sym", "value")), ("z", ("const", "")))), "convert", {"x": "conv", "y": "conv", "z": "conv"}),
+        ("no entries", ("kwdict", ()), "convert", None),
+    ]
+    problems = set()
+    n = 0
+    for label, data, conv, want in cases:
+        def oracle(name, pos, kw):
+            if name == "convert.__call__":
+                return [("val", ("new", "converted", (pos[0] if pos else None,), ()))]   # a Mismatch object: truthy
+            if name == "result.__call__":
+                return [("val", ("new", "result-mismatch", (pos[0] if pos else None,), ()))]
+            return None
+        dom = DeferredDomain(ctx.classes, attrs={}, oracle=oracle, log_cap=20)
+        argv = {params[0]: data, params[2]: ("wobj", "result")}
+        if conv:
+            argv[params[1]] = ("wobj", "convert")
+        res = effects.run(ctx, dom, f, None, argv, state=State(), depth=4)
+        n += len(res)
+        for r in res:
+            if r.kind != "val":
+                problems.add(f"[{label}] raises {r.value!r}")
+                continue
+            if want is None:
+                if r.value != A_NONE:
+                    problems.add(f"[{label}] returns {r.value!r} instead of None (a match)")
+                continue
+            got = None
+            if isinstance(r.value, tuple) and r.value[:2] == ("new", "result-mismatch") and isinstance(r.value[2][0], tuple) and r.value[2][0][:1] == ("kwdict",):
+                got = {k: ("conv" if isinstance(v, tuple) and v[:2] == ("new", "converted") else v) for k, v in r.value[2][0][1]}
+            if got != want:
+                problems.add(f"[{label}] the mismatch reported covers {sorted(got) if got is not None else r.value!r}; expected exactly the entries {sorted(want)} "
+                             "(an entry is dropped by what its raw value is, not by whether it mismatches)")
+    ctx.check("R-DICT-FACTORIES", "_dict_to_mismatch reports exactly the entries that carry a mismatch, whatever their raw values", f, n > 0 and not problems, "; ".join(sorted(problems)),
+              examined=n, construct="testtools.matchers._dict:_dict_to_mismatch::entries")
+
+
 def run(ctx):
     ctx.rule("R-RETURN-KIND", "match() returns None, a Mismatch or a delegate's verdict -- never bool / text / collection")
     ctx.rule("R-TRUTH-TABLE", "combinator verdicts are the declared truth function of their components' verdicts")
@@ -416,6 +466,7 @@ def run(ctx):
     ok = set(tables["MatchesDict"]) == set(tables["ContainsDict"]) | set(tables["ContainedByDict"])
     ctx.check("R-DICT-FACTORIES", "exact = super-dict checks U sub-dict checks", None, ok, "MatchesDict is not the union of ContainsDict and ContainedByDict",
               construct="testtools.matchers._dict::exact=super+sub")
+    check_dict_to_mismatch(ctx)
 
     # ------------------------------------------------------------------ falsy mismatch
     for c in mismatch_classes(ctx):
